@@ -109,7 +109,7 @@ def floors(tier):
             "site2index_checks": 50000, "period_shift_checks": 5000, "nn_site_checks": 500000, "nn_site_inverse_checks": 300000,
             "bonds_checked": 3000, "seam_bonds_checked": 50, "nn_bond_dirn_checks": 50000, "nn_bond_dirn_rejections": 30000,
             "f_ordered_pair_checks": 50000, "f_ordered_triple_checks": 50000, "sites_listing_checked": 80,
-            "container_ops": 10000, "container_patch_ops": 1500, "container_patch_remove_of_patched_site": 150, "container_init_forms": 500, "container_init_rejected": 50,
+            "container_ops": 10000, "container_patch_ops": 1500, "container_patch_remove_of_patched_site": 150, "container_copy_steps": 5000, "container_copy_steps_while_other_patch_open": 1000, "container_init_forms": 500, "container_init_rejected": 50,
             "dict_form_checked": 200, "units_done": len(units(tier)),
             "class:SquareLattice": 75, "class:CheckerboardLattice": 1, "class:TriangularLattice": 76, "class:RectangularUnitcell": 150}
 
@@ -206,6 +206,11 @@ class Obj:
 
     def shallow_copy(self):
         return Obj(self.tag + "'", parent=self)
+
+    def copy(self):
+        return Obj(self.tag + "c", parent=self)
+
+    clone = detach = copy
 
     def __repr__(self):
         return f"Obj({self.tag})"
@@ -325,6 +330,7 @@ def check_geometry(ctx, g, M, rng, full=True):
     check_f_order(ctx, g, M, full)
     # ---- containers
     check_container(ctx, g, M, rng)
+    check_container_copies(ctx, g, M, rng)
 
 
 def check_bonds(ctx, g, M):
@@ -585,6 +591,103 @@ def check_container(ctx, g, M, rng):
             V(ctx, M, f"container:init-accepted-inconsistent:{cls}", "Lattice accepted two different objects for one unique site")
         except YastnError:
             ctx.count("container_init_rejected")
+
+
+def check_container_copies(ctx, g, M, rng):
+    """Two containers related by shallow_copy / copy / clone / detach, driven alternately: a write, an open patch or
+    apply_patch on one of them never changes what the other one returns."""
+    import yastn.tn.fpeps as fpeps
+    cls = M.cls
+    if M.kind == "obc":
+        anysite = M.cell()
+    elif M.kind == "cylinder":
+        anysite = [(x, y) for x in range(-M.Nx, 2 * M.Nx) for y in range(M.Ny)]
+    else:
+        anysite = [(x, y) for x in range(-M.Nx, 2 * M.Nx) for y in range(-M.Ny, 2 * M.Ny)]
+    counter = [0]
+
+    def new():
+        counter[0] += 1
+        return Obj(f"q{counter[0]}")
+
+    psi = (fpeps.Peps if rng.random() < 0.5 else fpeps.Lattice)(g)
+    data = {}
+    for l in sorted(M.labels(), key=repr):
+        s = rng.choice([t for t in anysite if M.label(t) == l])
+        data[l] = new()
+        psi[s] = data[l]
+    how = rng.choice(("shallow_copy", "shallow_copy", "shallow_copy", "copy", "clone", "detach"))
+    phi = getattr(psi, how)()
+    ctx.count(f"container_copy:{how}")
+    nets = [[psi, data, {}], [phi, dict(data), {}]]
+    if how == "shallow_copy":
+        if any(phi[s] is not data[M.label(s)] for s in anysite):
+            V(ctx, M, f"container:shallow_copy:{cls}", "shallow_copy() does not point to the same objects")
+            return
+    else:
+        for l in data:
+            s = next(t for t in anysite if M.label(t) == l)
+            got = phi[s]
+            if not (isinstance(got, Obj) and got.parent is data[l]):
+                V(ctx, M, f"container:{how}:{cls}", f"{how}() at {s}: {got!r} is not a {how} of {data[l]!r}")
+                return
+            nets[1][1][l] = got
+
+    def verify(op, who):
+        for k, (net, dat, pat) in enumerate(nets):
+            for s in rng.sample(anysite, min(len(anysite), 6)) + list(pat)[:3] + list(nets[1 - k][2])[:3]:
+                ctx.count("container_ops")
+                want = pat[s] if s in pat else dat[M.label(s)]
+                got = net[s]
+                if got is not want:
+                    V(ctx, M, f"container:copies-not-independent:{how}:{cls}",
+                      f"after {op} on container {who} ({'original' if who == 0 else how}): container {k}[{s}] is {got!r}, the model says {want!r}",
+                      {"patches": [sorted(n[2]) for n in nets]})
+                    return False
+        return True
+
+    for step in range(10):
+        who = rng.randrange(2)
+        net, dat, pat = nets[who]
+        op = rng.choice(("set", "patch", "patch", "apply", "setpatch"))
+        if op == "set":
+            s = rng.choice(anysite)
+            o = new()
+            net[s] = o
+            if s in pat:
+                pat[s] = o
+            else:
+                dat[M.label(s)] = o
+        elif op == "patch":
+            used = {M.label(p) for p in pat}
+            cand = [s for s in rng.sample(anysite, len(anysite)) if M.label(s) not in used][:1]
+            if not cand:
+                continue
+            net.move_to_patch(cand[0])
+            ctx.count("container_patch_ops")
+            got = net[cand[0]]
+            if not (isinstance(got, Obj) and got.parent is dat[M.label(cand[0])]):
+                V(ctx, M, f"container:move_to_patch:{cls}", f"after {how}: move_to_patch({cand[0]}) gave {got!r}")
+                return
+            pat[cand[0]] = got
+        elif op == "setpatch":
+            if not pat:
+                continue
+            s = rng.choice(sorted(pat))
+            o = new()
+            net[s] = o
+            pat[s] = o
+        else:
+            net.apply_patch()
+            ctx.count("container_patch_ops")
+            for s, o in pat.items():
+                dat[M.label(s)] = o
+            pat.clear()
+        ctx.count("container_copy_steps")
+        if nets[1 - who][2]:
+            ctx.count("container_copy_steps_while_other_patch_open")
+        if not verify(op, who):
+            return
 
 
 # ------------------------------------------------------------------ units
